@@ -11,4 +11,14 @@ CHECKS = {
    note='Trusted: Coq kernel + vm_compute; the harness (generator, adapter, printers); uuid4 freshness; CPython list/set semantics as transcribed. '
         'The model covers Tags.py TagCollection.__init__/__add__/__iadd__/__sub__/__isub__/_hasTag/append/remove/getAllNodes/getAllNodeUids/contains/containsUid, '
         'AdvancedTag.getAllChildNodes/getAllNodes/getAllNodeUids/containsUid/__eq__/__ne__/__hash__, uniqueTags.'),
+ 'C15': dict(
+   text='Theorems (Coq) for every event history, every admissible pair of bounds 0 <= CLEAR < MAX and every parser/evaluator that are functions: '
+        'each result equals a cache-less evaluation of the same text on the same tree (history independence, incl. hits, misses, evictions, '
+        're-entries, texts that do not compile or fail at run time), the cache invariant (no duplicate keys, table and recency list agree, '
+        'size <= MAX, lock free) holds after every event, and any interleaving of threads at the granularity of lock-protected sections keeps '
+        'both. The shipped bounds are regenerated from xpath/_cache.py on every run and the side condition is re-proved. Tie: the real global '
+        'cache is driven through the same histories (exhaustive small family at 3/1, long random at the shipped bounds) and compared with the '
+        'model after every event; real threads (switch interval 1e-6) are compared with sequential results.',
+   note='Thread half is partial: atomicity of lock-protected sections under CPython/GIL, liveness under the real scheduler are observed, not proved. '
+        'Trusted: SHA-1 collision freeness; compile/evaluate touch no other shared state (section variables); the translator for the two constants.'),
 }
